@@ -77,7 +77,71 @@ func channelFiles(d *kern.Disk, args []string) (wf, callee, cfg []string) {
 	return
 }
 
+// c01Invariants are the always-on checks of one run.
+func c01Invariants(res *LintResult, desc string) *Violation {
+	if v := runFailure("C01", res.K); v != nil {
+		v.Message += " [faults: " + desc + "]"
+		return v
+	}
+	if res.Exit != 0 && res.Exit != 1 && res.Exit != 3 {
+		return &Violation{Oracle: "exit-status", Class: fmt.Sprintf("exit-%d", res.Exit), Message: fmt.Sprintf("exit status %d is none of 0, 1, 3 (stderr: %s) [faults: %s]", res.Exit, firstLine(res.Stderr), desc)}
+	}
+	if strings.Contains(res.Stdout, "panic:") || strings.Contains(res.Stderr, "panic:") || strings.Contains(res.Stderr, "fatal error:") {
+		return &Violation{Oracle: "no-panic", Class: "panic-text-in-output", Message: "the output contains a Go panic / fatal error text: " + firstLine(res.Stderr)}
+	}
+	return nil
+}
+
+// c01TornEnum enumerates EVERY truncation offset (crash point of the writer) of
+// one channel file of a generated world - thorough tier; the quick tier takes
+// every 16th offset from a seeded phase.
+func c01TornEnum(c *Chooser, env *Env) *Outcome {
+	o := &Outcome{}
+	mw := GenMulti(c, GenOpts{Ties: true, Corpus: true, Projects: true, Defective: true, SelfArg: true, PathConfigs: true, MaxRepos: 1, MaxFiles: 2})
+	w := mw.World
+	w.API = APIMain
+	w.Args = append([]string{"-no-color", "-shellcheck=", "-pyflakes="}, w.Files...)
+	if c.Bool("world.snippets") {
+		w.Args = append([]string{"-format", "{{range $ := .}}{{$.Filepath}}:{{$.Line}}:{{$.Column}}:{{$.Snippet}}\n{{end}}"}, w.Args...)
+	}
+	o.World = w
+	wfs, callees, cfgs := channelFiles(w.Disk, mw.AbsArgs)
+	targets := append(append(append([]string{}, wfs...), callees...), cfgs...)
+	sort.Strings(targets)
+	if len(targets) == 0 {
+		return o
+	}
+	t := targets[c.Int("fault.target", len(targets))]
+	size := len(w.Disk.Files[t])
+	step, phase := 1, 0
+	if env.Tier != "thorough" {
+		step = 16
+		phase = c.Int("fault.phase", step)
+	}
+	nth := c.Int("fault.nth", 2) // every read, or only the first
+	o.Sig = w.Hash() ^ uint64(size)<<32 ^ uint64(phase)
+	for off := phase; off <= size; off += step {
+		w.Faults = []kern.Fault{{Kind: kern.FTorn, Path: t, Nth: nth, Off: off}}
+		res := RunLint(w, nil, RunOpts{Canonical: true, KeepTrace: env.KeepTrace && false})
+		o.addRun(res.K)
+		if res.K.FaultsFired[kern.FTorn] > 0 {
+			o.Nontrivial = true
+			o.probe("torn_offsets_executed", 1)
+		}
+		if v := c01Invariants(res, fmt.Sprintf("torn@%s[nth=%d off=%d of %d]", t, nth, off, size)); v != nil {
+			v.Class = "torn-enum:" + v.Class
+			o.V = v
+			break
+		}
+	}
+	o.Sample = map[string]any{"mode": "torn-offset enumeration", "file": t, "size": size, "offset_step": step, "runs": o.Runs, "args": w.Args}
+	return o
+}
+
 func (c01) Eval(c *Chooser, env *Env) *Outcome {
+	if env.Variant == "tornenum" {
+		return c01TornEnum(c, env)
+	}
 	o := &Outcome{}
 	opts := GenOpts{Ties: true, Clone: true, Corpus: true, Projects: true, Defective: true, Loose: true, SelfArg: true, PathConfigs: true, MaxRepos: 2, MaxFiles: 3}
 	mw := GenMulti(c, opts)
